@@ -1,6 +1,25 @@
 (* C01 (VM half): well-formed byte-code never makes the VM model reach a Go panic site;
    C07 (VM half): the operation budget fails closed.
-   Everything here is ABOUT Model/VM.v (validated against the implementation by the K2 correspondence). *)
+   Everything here is ABOUT Model/VM.v (validated against the implementation by the K2 correspondence).
+
+   PART A (C01)
+     C01_step_no_panic_partial     one instruction, per opcode family (step_<family>_no_panic), any state
+     C01_exec/run_no_panic_anystate  any values, any heap: the only Panic left is one of the two
+                                   VALUE-dependent sites of the model (`allowed`)
+     C01_run_no_panic_refuted_*    vm_compute witnesses: the unrestricted statement is false of the model
+     push_range_no_panic_i64       site 1 needs an operand outside int64 (no Go value)
+     step_good_all / exec_good     site 2 needs a bound `Computed.compute` without Self; no instruction creates
+                                   one (invariant G: stack, lastPop, every array and map of the heap)
+     C01_exec/run_no_panic_partial  from a state without such a value: the only Panic left is site 1
+     C01_run_keeps_state_good      the state after a run satisfies the hypothesis again
+   PART B (C07)
+     C07_ops_add_spec, C07_dispatch_counts, C07_budget_error_once_exceeded,
+     C07_dice_batch_charged_before_rolling, C07_coc_batch_charged_before_rolling,
+     C07_wod_dc_rounds_charged(_step), C07_budget_bounds_dispatches, C07_counter_never_lowered,
+     C07_run_dispatch_bound, C07_call_costs_100, C07_computed_costs_100.
+   Proof style: `step` is never unfolded wholesale; each family lemma unfolds it on ONE opcode and a
+   goal-directed tactic (q_go / q2_go / q3_go) walks the continuation-passing structure with one lemma per
+   helper (with_pop, lift, do_push, ...), so reordering `match` branches does not matter. *)
 From Coq Require Import String Ascii NArith ZArith List Bool Lia.
 From DS Require Import Model.Str Model.PCG Model.Roll Model.Dice Model.Value Model.VM Model.CodeWf Proofs.VMFacts.
 Import ListNotations.
@@ -518,7 +537,7 @@ Proof. unfold count_op; intros E m m1 over. destruct (ops_add _ _ _). intros [= 
 Lemma nth_error_in_range : forall A (l : list A) z, 0 <= z -> z < zlen l -> nth_error l (Z.to_nat z) <> None.
 Proof. unfold zlen; intros A l z H1 H2. apply nth_error_Some. lia. Qed.
 
-Theorem C01_exec_no_panic_partial : forall E, ftab_wf (e_ftab E) = true ->
+Theorem C01_exec_no_panic_anystate : forall E, ftab_wf (e_ftab E) = true ->
   forall fuel m, machine_ok m -> res_ok (exec fuel E m).
 Proof.
   intros E Hft. induction fuel as [|f IH]; intros m Hm; [exact Logic.I|].
@@ -542,13 +561,13 @@ Proof.
   - exact HQ.
 Qed.
 
-Theorem C01_run_no_panic_partial : forall E c src,
+Theorem C01_run_no_panic_anystate : forall E c src,
   code_wf c = true -> spans_wf (Some src) c = true -> ftab_wf (e_ftab E) = true ->
   forall fuel st, match run fuel E c src st with OPanic s => allowed s | _ => True end.
 Proof.
   intros E c src W1 W2 Hft fuel st. unfold run.
   match goal with |- context [exec fuel E ?m] =>
-    pose proof (C01_exec_no_panic_partial E Hft fuel m (new_frame_machine_ok _ _ _ W1 W2)) as H;
+    pose proof (C01_exec_no_panic_anystate E Hft fuel m (new_frame_machine_ok _ _ _ W1 W2)) as H;
     destruct (exec fuel E m) end; try exact Logic.I. exact H.
 Qed.
 
@@ -690,8 +709,8 @@ Example C01_run_no_panic_refuted_bare_method :
 Proof. split; [reflexivity|]. split; [reflexivity|vm_compute; reflexivity]. Qed.
 
 Print Assumptions C01_step_no_panic_partial.
-Print Assumptions C01_exec_no_panic_partial.
-Print Assumptions C01_run_no_panic_partial.
+Print Assumptions C01_exec_no_panic_anystate.
+Print Assumptions C01_run_no_panic_anystate.
 Print Assumptions push_range_no_panic_i64.
 
 (* ================================================================== PART B: C07 *)
@@ -1586,3 +1605,638 @@ Print Assumptions C07_wod_dc_rounds_charged.
 Print Assumptions C07_wod_dc_rounds_charged_step.
 Print Assumptions C07_run_dispatch_bound.
 Print Assumptions C07_computed_costs_100.
+
+(* ================================================================== C01, strengthened: value provenance *)
+(* No instruction creates the bound method Computed.compute (attr.get on a computed value reads only its
+   attribute map), so a state that holds none never holds one: the "nil Self" site is unreachable from
+   such a state, whatever the code. *)
+Definition vgood (v : value) : Prop :=
+  match v with VNative n _ => String.eqb n "Computed.compute" = false | _ => True end.
+Definition lgood (l : list value) : Prop := Forall vgood l.
+Definition mgood (m : vmap) : Prop := Forall (fun kv => vgood (snd kv)) m.
+Definition heap_good (h : heap) : Prop :=
+  Forall (fun p => lgood (snd p)) (h_arrs h) /\ Forall (fun p => mgood (snd p)) (h_maps h).
+
+Lemma aget_Forall : forall A (P : A -> Prop) k m x, Forall (fun p => P (snd p)) m -> aget k m = Some x -> P x.
+Proof.
+  induction m as [|[k' v] m IH]; intros x H; cbn [aget]; [discriminate|]. inversion H; subst.
+  destruct (k =? k')%N; [intros [= <-]; assumption|auto].
+Qed.
+Lemma aset_Forall : forall A (P : A -> Prop) k x m, Forall (fun p => P (snd p)) m -> P x -> Forall (fun p => P (snd p)) (aset k x m).
+Proof.
+  induction m as [|[k' v] m IH]; intros H Hx; cbn [aset]; [repeat constructor; assumption|]. inversion H; subst.
+  destruct (k =? k')%N; constructor; auto.
+Qed.
+
+Lemma get_arr_good : forall id h, heap_good h -> lgood (get_arr id h).
+Proof. unfold get_arr; intros id h [H _]. destruct (aget id (h_arrs h)) eqn:E; [exact (aget_Forall _ _ _ _ _ H E)|constructor]. Qed.
+Lemma get_map_good : forall id h, heap_good h -> mgood (get_map id h).
+Proof. unfold get_map; intros id h [_ H]. destruct (aget id (h_maps h)) eqn:E; [exact (aget_Forall _ _ _ _ _ H E)|constructor]. Qed.
+Lemma cattrs_get_good : forall cid h, heap_good h -> mgood (cattrs_get cid h).
+Proof. unfold cattrs_get; intros. destruct (aget cid (h_cattrs h)); [apply get_map_good; assumption|constructor]. Qed.
+
+Lemma mget_good : forall k m v, mgood m -> mget k m = Some v -> vgood v.
+Proof.
+  induction m as [|[k' x] m IH]; intros v H; cbn [mget]; [discriminate|]. inversion H; subst.
+  destruct (String.eqb k k'); [intros [= <-]; assumption|auto].
+Qed.
+Lemma mget_or_null_good : forall k m, mgood m -> vgood (match mget k m with Some v => v | None => VNull end).
+Proof. intros k m H. destruct (mget k m) eqn:E; [exact (mget_good _ _ _ H E)|exact Logic.I]. Qed.
+Lemma mset_good : forall k v m, mgood m -> vgood v -> mgood (mset k v m).
+Proof.
+  induction m as [|[k' x] m IH]; intros H Hv; cbn [mset]; [repeat constructor; assumption|]. inversion H; subst.
+  destruct (String.eqb k k'); constructor; auto. apply IH; assumption.
+Qed.
+
+Lemma alloc_arr_good : forall l h, heap_good h -> lgood l -> heap_good (snd (alloc_arr l h)).
+Proof. unfold alloc_arr, heap_good; intros l h [H1 H2] Hl; cbn. split; [constructor; assumption|assumption]. Qed.
+Lemma alloc_map_good : forall m h, heap_good h -> mgood m -> heap_good (snd (alloc_map m h)).
+Proof. unfold alloc_map, heap_good; intros m h [H1 H2] Hl; cbn. split; [assumption|constructor; assumption]. Qed.
+Lemma set_arr_good : forall id l h, heap_good h -> lgood l -> heap_good (set_arr id l h).
+Proof. unfold set_arr, heap_good; intros id l h [H1 H2] Hl; cbn. split; [apply aset_Forall; assumption|assumption]. Qed.
+Lemma set_map_good : forall id m h, heap_good h -> mgood m -> heap_good (set_map id m h).
+Proof. unfold set_map, heap_good; intros id m h [H1 H2] Hl; cbn. split; [assumption|apply aset_Forall; assumption]. Qed.
+Lemma cattrs_force_good : forall cid h, heap_good h -> heap_good (snd (cattrs_force cid h)).
+Proof.
+  unfold cattrs_force; intros cid h H. destruct (aget cid (h_cattrs h)); [exact H|].
+  unfold alloc_map, heap_good in *. cbn. destruct H as [H1 H2]. split; [assumption|]. constructor; [constructor|assumption].
+Qed.
+
+(* lists *)
+Lemma lgood_firstn : forall n l, lgood l -> lgood (firstn n l).
+Proof. induction n; intros l H; cbn; [constructor|]. destruct l; [constructor|]. inversion H; subst. constructor; auto. apply IHn; assumption. Qed.
+Lemma lgood_skipn : forall n l, lgood l -> lgood (skipn n l).
+Proof. induction n; intros l H; cbn; [assumption|]. destruct l; [constructor|]. inversion H; subst. apply IHn; assumption. Qed.
+Lemma lgood_slice : forall l a b, lgood l -> lgood (slice l a b).
+Proof. intros; unfold slice. apply lgood_firstn, lgood_skipn; assumption. Qed.
+Lemma lgood_app : forall l1 l2, lgood l1 -> lgood l2 -> lgood (l1 ++ l2).
+Proof. intros; apply Forall_app; split; assumption. Qed.
+Lemma lgood_rev : forall l, lgood l -> lgood (rev l).
+Proof. intros; apply Forall_rev; assumption. Qed.
+Lemma lgood_repeat : forall n l, lgood l -> lgood (repeat_list l n).
+Proof. induction n; intros; cbn; [constructor|apply lgood_app; auto]. Qed.
+Lemma lgood_nth : forall n l d, lgood l -> vgood d -> vgood (nth n l d).
+Proof. induction n; intros l d H Hd; destruct l; cbn; auto; inversion H; subst; auto. Qed.
+Lemma lgood_list_set : forall l i x, lgood l -> vgood x -> lgood (list_set l i x).
+Proof. induction l; intros i x H Hx; cbn; [constructor|]. inversion H; subst. destruct i; constructor; auto. apply IHl; assumption. Qed.
+Lemma lgood_swap : forall l i j, lgood l -> lgood (swap l i j).
+Proof. intros; unfold swap. repeat apply lgood_list_set; auto; apply lgood_nth; auto; exact Logic.I. Qed.
+Lemma lgood_set_slice : forall l l2 a b, lgood l -> lgood l2 -> lgood (set_slice l l2 a b).
+Proof. intros; unfold set_slice. destruct (slice_bounds _ _ _). repeat apply lgood_app; auto using lgood_firstn, lgood_skipn. Qed.
+Lemma lgood_removelast : forall l, lgood l -> lgood (removelast l).
+Proof. induction l; intros H; [constructor|]. inversion H; subst. cbn [removelast]. destruct l; [constructor|]. constructor; [assumption|apply IHl; assumption]. Qed.
+Lemma lgood_last : forall l d, lgood l -> vgood d -> vgood (last l d).
+Proof. induction l; intros d H Hd; cbn; auto. inversion H; subst. destruct l; auto. Qed.
+Lemma dict_of_good : forall l m m', lgood l -> mgood m -> dict_of l m = Some m' -> mgood m'.
+Proof.
+  fix IH 1. intros l m m' Hl Hm. destruct l as [|k [|v r]]; cbn [dict_of]; try (intros [= <-]; assumption).
+  destruct (as_dict_key k); [|discriminate]. inversion Hl as [|? ? _ Hl1]; subst. inversion Hl1; subst.
+  apply IH; [assumption|apply mset_good; assumption].
+Qed.
+Lemma bind_params_good : forall ps args m, lgood args -> mgood m -> mgood (bind_params ps args m).
+Proof.
+  induction ps; intros args m Ha Hm; cbn; [assumption|]. destruct args; [assumption|]. inversion Ha; subst.
+  apply IHps; [assumption|apply mset_good; assumption].
+Qed.
+
+Lemma lgood_znth : forall l i d, lgood l -> vgood d -> vgood (znth l i d).
+Proof. intros; unfold znth; apply lgood_nth; assumption. Qed.
+Lemma mgood_hd : forall k x m, mgood ((k, x) :: m) -> vgood x.
+Proof. intros k x m H; inversion H; assumption. Qed.
+Lemma lgood_hd : forall x l, lgood (x :: l) -> vgood x.
+Proof. intros x l H; inversion H; assumption. Qed.
+Lemma lgood_tl : forall x l, lgood (x :: l) -> lgood l.
+Proof. intros x l H; inversion H; assumption. Qed.
+Lemma lgood_nil : lgood [].
+Proof. constructor. Qed.
+Lemma lgood_cons : forall x l, vgood x -> lgood l -> lgood (x :: l).
+Proof. intros; constructor; assumption. Qed.
+Lemma mgood_nil : mgood [].
+Proof. constructor. Qed.
+
+Definition wg (w : world) : Prop := heap_good (w_heap w).
+Lemma wg_set_heap : forall w h, heap_good h -> wg (w_set_heap w h).
+Proof. intros; exact H. Qed.
+Lemma wg_heap : forall w, wg w -> heap_good (w_heap w).
+Proof. intros; assumption. Qed.
+Lemma wg_set_pcg : forall w s, wg w -> wg (w_set_pcg w s).
+Proof. intros; assumption. Qed.
+Lemma wg_set_chain : forall w c, wg w -> wg (w_set_chain w c).
+Proof. intros; assumption. Qed.
+Lemma wg_set_self_ops : forall w x, wg w -> wg (w_set_self_ops w x).
+Proof. intros w x H; unfold w_set_self_ops. destruct (w_chain w); assumption. Qed.
+Lemma wg_st_log : forall w a b c d e f, wg w -> wg (st_log w a b c d e f).
+Proof. intros; assumption. Qed.
+Lemma wg_store_name : forall n v w, wg w -> vgood v -> wg (store_name n v w).
+Proof.
+  intros n v w H Hv; unfold store_name, wg; cbn [w_heap w_set_heap].
+  apply set_map_good; [exact H|]. apply mset_good; [apply get_map_good; exact H|exact Hv].
+Qed.
+
+Lemma vgood_vint : forall z, vgood (VInt z). Proof. intros; exact Logic.I. Qed.
+Lemma vgood_vstr : forall z, vgood (VStr z). Proof. intros; exact Logic.I. Qed.
+Lemma vgood_vnull : vgood VNull. Proof. exact Logic.I. Qed.
+Lemma vgood_varr : forall z, vgood (VArr z). Proof. intros; exact Logic.I. Qed.
+Lemma vgood_vdict : forall z, vgood (VDict z). Proof. intros; exact Logic.I. Qed.
+Lemma vgood_vbool : forall b, vgood (vbool b). Proof. intros; exact Logic.I. Qed.
+
+Lemma load_global_good : forall name, vgood (load_global name).
+Proof.
+  intros name. unfold load_global. destruct (mem_s name builtin_names) eqn:H; [|exact Logic.I].
+  unfold vgood. destruct (String.eqb name "Computed.compute") eqn:He; [|reflexivity].
+  apply String.eqb_eq in He. subst name. vm_compute in H. discriminate.
+Qed.
+
+Lemma attr_fallback_good : forall v name x, (forall c, v <> VComp c) -> attr_fallback v name = Some x -> vgood x.
+Proof.
+  intros v name x Hv. unfold attr_fallback, proto_method.
+  destruct v; try (destruct (mem_s name _)); try (intros [= <-]; exact Logic.I); try discriminate.
+  - exfalso; exact (Hv cid eq_refl).
+  - intros [= <-]. reflexivity.
+  - intros [= <-]. reflexivity.
+Qed.
+
+Lemma native_sig_good : forall name, lgood (snd (native_sig name)).
+Proof. intros; unfold native_sig. repeat destruct (_ : bool); cbn; repeat constructor. Qed.
+
+Lemma range_loop_good : forall n i step b idx len acc l, lgood acc -> range_loop n i step b idx len acc = Some l -> lgood l.
+Proof.
+  induction n; intros i step b idx len acc l Ha; cbn [range_loop]; destruct (len <=? idx); try discriminate;
+    destruct (i =? b); try discriminate.
+  - intros [= <-]. apply (lgood_rev (VInt i :: acc)). constructor; [exact Logic.I|assumption].
+  - intros [= <-]. apply (lgood_rev (VInt i :: acc)). constructor; [exact Logic.I|assumption].
+  - apply IHn. constructor; [exact Logic.I|assumption].
+Qed.
+
+Lemma wg_charged : forall E w n, wg w -> wg (charged E w n).
+Proof. intros; unfold charged. apply wg_set_self_ops; assumption. Qed.
+
+Create HintDb good.
+#[export] Hint Resolve wg_charged : good.
+#[export] Hint Resolve get_arr_good get_map_good cattrs_get_good mget_or_null_good mset_good alloc_arr_good alloc_map_good
+  set_arr_good set_map_good cattrs_force_good lgood_firstn lgood_skipn lgood_slice lgood_app lgood_rev lgood_repeat lgood_nth
+  lgood_list_set lgood_swap lgood_set_slice lgood_removelast lgood_last bind_params_good lgood_znth lgood_nil lgood_cons mgood_nil
+  wg_set_heap wg_heap wg_set_pcg wg_set_chain wg_set_self_ops wg_st_log wg_store_name vgood_vint vgood_vstr vgood_vnull vgood_varr
+  vgood_vdict vgood_vbool load_global_good : good.
+#[export] Hint Immediate mgood_hd lgood_hd lgood_tl : good.
+
+Definition frame_good (fr : frame) : Prop :=
+  lgood (fr_live fr) /\ lgood (fr_dead fr) /\ match fr_last fr with LVal v => vgood v | _ => True end.
+Definition G (m : machine) : Prop := frame_good (m_fr m) /\ wg (m_w m).
+
+Definition rg {A} (P : A -> Prop) (r : R A) : Prop :=
+  match r with ROk a w => P a /\ wg w | RPanic s => s <> nilself_msg | _ => True end.
+Definition tt_ok {A} : A -> Prop := fun _ => True.
+Definition ovgood (o : option value) : Prop := match o with Some x => vgood x | None => True end.
+
+Lemma new_frame_good : forall c s, frame_good (new_frame c s).
+Proof. intros; unfold frame_good, new_frame; cbn. repeat split; constructor. Qed.
+
+Section Good.
+  Variable call : machine -> result.
+  Variable rfuel : nat.
+  Variable E : env.
+  Hypothesis Hcall : forall m, G m -> match call m with Fin m' => G m' | Panic s => s <> nilself_msg | _ => True end.
+
+  Lemma rg_rbind : forall A B (P : A -> Prop) (Q : B -> Prop) (r : R A) (k : A -> world -> R B),
+    rg P r -> (forall a w, P a -> wg w -> rg Q (k a w)) -> rg Q (rbind r k).
+  Proof. intros A B P Q r k H1 H2. destruct r; cbn in *; auto. destruct H1; auto. Qed.
+
+  Ltac leaf :=
+    match goal with
+    | |- rg _ (ROk _ _) => split; [try exact Logic.I; cbn beta; eauto 7 with good | eauto 7 with good]
+    | |- rg _ (RPanic _) => let X := fresh in intro X; discriminate X
+    end.
+
+  Ltac rg_tac :=
+    repeat first
+      [ exact Logic.I
+      | leaf
+      | progress cbv zeta
+      | match goal with
+        | |- rg _ (if ?b then _ else _) => destruct b
+        | |- rg _ (match ?x with _ => _ end) => destruct x
+        end ].
+
+  Lemma ret_good : forall m', G m' -> vgood (match fr_live (m_fr m') with v :: _ => v | [] => VNull end).
+  Proof. intros m' [[H _] _]. destruct (fr_live (m_fr m')); [exact Logic.I|inversion H; assumption]. Qed.
+
+  Lemma computed_execute_g : forall cid k w, wg w -> rg vgood (computed_execute call E cid k w).
+  Proof.
+    intros cid k w Hw. unfold computed_execute.
+    destruct (nth_error (w_chain w) k); [|exact Logic.I].
+    pose proof (cattrs_force_good cid (w_heap w) Hw) as Hh.
+    destruct (cattrs_force cid (w_heap w)) as [mapid h1]. cbn [snd] in Hh.
+    destruct (limit_hit E _); [exact Logic.I|].
+    destruct (f_lookup (e_ftab E) cid) as [d|]; [|exact Logic.I].
+    destruct (f_code d) as [body|]; [|exact Logic.I].
+    match goal with |- rg _ (match call ?sub with _ => _ end) =>
+      pose proof (Hcall sub) as Hs; destruct (call sub) as [m'| | | |] end; try exact Logic.I.
+    - assert (Gm : G m') by (apply Hs; split; [apply new_frame_good|exact Hh]).
+      destruct (w_chain (m_w m')) as [|s' [|t' rest']]; try exact Logic.I.
+      split; [apply ret_good; exact Gm|apply Gm].
+    - destruct (w_chain (m_w m)) as [|s' [|t' rest']]; exact Logic.I.
+    - apply Hs. split; [apply new_frame_good|exact Hh].
+  Qed.
+
+  Lemma func_invoke_g : forall fid args w, wg w -> lgood args -> rg vgood (func_invoke call E fid args w).
+  Proof.
+    intros fid args w Hw Ha. unfold func_invoke.
+    destruct (f_lookup (e_ftab E) fid) as [d|]; [|exact Logic.I].
+    destruct (w_chain w) as [|self ups]; [exact Logic.I|].
+    destruct (negb _); [exact Logic.I|].
+    pose proof (alloc_map_good (bind_params (f_params d) args []) (w_heap w) Hw
+                  (bind_params_good _ _ _ Ha mgood_nil)) as Hh.
+    destruct (alloc_map _ _) as [mapid h1]. cbn [snd] in Hh.
+    destruct (limit_hit E _); [exact Logic.I|].
+    destruct (f_code d) as [body|]; [|exact Logic.I].
+    match goal with |- rg _ (match call ?sub with _ => _ end) =>
+      pose proof (Hcall sub) as Hs; destruct (call sub) as [m'| | | |] end; try exact Logic.I.
+    - assert (Gm : G m') by (apply Hs; split; [apply new_frame_good|exact Hh]).
+      destruct (w_chain (m_w m')) as [|s' [|t' rest']]; try exact Logic.I.
+      split; [apply ret_good; exact Gm|apply Gm].
+    - destruct (w_chain (m_w m)) as [|s' rest']; exact Logic.I.
+    - apply Hs. split; [apply new_frame_good|exact Hh].
+  Qed.
+
+  Lemma load_walk_g : forall n k name isRaw w, wg w -> rg vgood (load_walk call E n k name isRaw w).
+  Proof.
+    induction n; intros k name isRaw w Hw; cbn [load_walk]; [split; [apply load_global_good|exact Hw]|].
+    destruct (nth_error (w_chain w) k); [|split; [apply load_global_good|exact Hw]].
+    eapply rg_rbind with (P := vgood).
+    - pose proof (mget_or_null_good name _ (get_map_good (c_attrs c) _ Hw)) as Hv.
+      destruct (match mget name _ with Some v => v | None => VNull end); try (split; [exact Hv|exact Hw]).
+      destruct isRaw; [split; [exact Hv|exact Hw]|apply computed_execute_g; exact Hw].
+    - intros v w' Hv Hw'. destruct v; try (split; [exact Hv|exact Hw']). apply IHn; exact Hw'.
+  Qed.
+  Lemma load_name_g : forall name isRaw w, wg w -> rg vgood (load_name call E name isRaw w).
+  Proof. intros; apply load_walk_g; assumption. Qed.
+  Lemma load_local_g : forall name w, wg w -> rg vgood (load_local call E name w).
+  Proof.
+    intros name w Hw. unfold load_local.
+    pose proof (mget_or_null_good name _ (get_map_good (c_attrs (w_self w)) _ Hw)) as Hv.
+    destruct (match mget name _ with Some v => v | None => VNull end); try (split; [exact Hv|exact Hw]).
+    apply computed_execute_g; exact Hw.
+  Qed.
+
+  Lemma new_arr_g : forall l w, wg w -> lgood l -> rg vgood (new_arr l w).
+  Proof.
+    intros l w Hw Hl; unfold new_arr. pose proof (alloc_arr_good l _ Hw Hl) as Hh.
+    destruct (alloc_arr _ _). split; [exact Logic.I|exact Hh].
+  Qed.
+  Lemma str_of_g : forall E' b v w, wg w -> rg tt_ok (str_of E' b v w).
+  Proof. intros E' b v w Hw; unfold str_of. destruct (if b then _ else _); [split; [exact Logic.I|exact Hw]|exact Logic.I]. Qed.
+  Lemma roll1_g : forall n w, wg w -> rg tt_ok (roll1 n w).
+  Proof. intros n w Hw; unfold roll1. destruct (roll _ _ _ _ _) as [[r s]|]; [split; [exact Logic.I|exact Hw]|exact Logic.I]. Qed.
+  Lemma shuffle_loop_g : forall i l w, wg w -> lgood l -> rg lgood (shuffle_loop i l w).
+  Proof.
+    induction i; intros l w Hw Hl; cbn [shuffle_loop]; [split; assumption|].
+    eapply rg_rbind; [apply roll1_g; exact Hw|]. intros r w' _ Hw'. apply IHi; [exact Hw'|apply lgood_swap; exact Hl].
+  Qed.
+  Lemma shuffle_g : forall l w, wg w -> lgood l -> rg lgood (shuffle l w).
+  Proof. intros; apply shuffle_loop_g; assumption. Qed.
+
+  Lemma array_repeat_g : forall id t w, wg w -> rg vgood (array_repeat id t w).
+  Proof.
+    intros id t w Hw; unfold array_repeat. destruct t; try exact Logic.I. cbv zeta.
+    destruct (z <? 0); [exact Logic.I|]. destruct (_ || _); [exact Logic.I|].
+    apply new_arr_g; [exact Hw|]. destruct (get_arr id (w_heap w)) eqn:He; [constructor|]. rewrite <- He. auto with good.
+  Qed.
+
+  Lemma attr_get_g : forall v name w, wg w -> rg ovgood (attr_get call E v name w).
+  Proof.
+    intros v name w Hw. unfold attr_get.
+    assert (Hfb : forall v0, (forall c, v0 <> VComp c) -> rg ovgood (ROk (attr_fallback v0 name) w)).
+    { intros v0 Hv0. split; [|exact Hw]. destruct (attr_fallback v0 name) eqn:Hf; [|exact Logic.I].
+      exact (attr_fallback_good _ _ _ Hv0 Hf). }
+    destruct v; try (apply Hfb; intros; discriminate).
+    - split; [|exact Hw]. apply (mget_or_null_good name). apply cattrs_get_good; exact Hw.
+    - destruct (mget name (get_map id (w_heap w))) eqn:Hm.
+      + split; [|exact Hw]. exact (mget_good _ _ _ (get_map_good _ _ Hw) Hm).
+      + destruct (proto_walk 64 id name (w_heap w)) eqn:Hp; [|apply Hfb; intros; discriminate].
+        split; [|exact Hw]. revert Hp. generalize 64%nat id.
+        induction n; intros cur; cbn [proto_walk]; [discriminate|].
+        destruct (mget "__proto__" (get_map cur (w_heap w))) as [[]|]; try discriminate.
+        destruct (mget name (get_map id0 (w_heap w))) eqn:Hm2; [|apply IHn].
+        intros [= <-]. exact (mget_good _ _ _ (get_map_good _ _ Hw) Hm2).
+    - eapply rg_rbind; [apply load_local_g; exact Hw|]. intros x w' Hx Hw'. split; assumption.
+  Qed.
+
+  Lemma attr_set_g : forall v name x w, wg w -> vgood x -> rg tt_ok (attr_set v name x w).
+  Proof.
+    intros v name x w Hw Hx; unfold attr_set. destruct v; try exact Logic.I.
+    - pose proof (cattrs_force_good cid _ Hw) as Hh. destruct (cattrs_force cid (w_heap w)) as [id h1]. cbn [snd] in Hh.
+      split; [exact Logic.I|]. auto 6 with good.
+    - split; [exact Logic.I|]. auto 6 with good.
+  Qed.
+  Lemma item_get_g : forall a b w, wg w -> rg vgood (item_get a b w).
+  Proof. intros a b w Hw; unfold item_get. rg_tac. Qed.
+  Lemma item_set_g : forall a b x w, wg w -> vgood x -> rg tt_ok (item_set a b x w).
+  Proof. intros a b x w Hw Hx; unfold item_set. rg_tac. Qed.
+  Lemma slice_get_g : forall o a b w, wg w -> rg vgood (slice_get o a b w).
+  Proof. intros o a b w Hw; unfold slice_get. rg_tac; apply new_arr_g; auto with good. Qed.
+  Lemma slice_set_g : forall o a b x w, wg w -> rg tt_ok (slice_set o a b x w).
+  Proof. intros o a b x w Hw; unfold slice_set. rg_tac. Qed.
+
+  Lemma bin_op_g : forall op v1 v2 w, wg w -> vgood v1 -> vgood v2 -> rg vgood (bin_op rfuel E op v1 v2 w).
+  Proof.
+    intros op v1 v2 w Hw H1 H2. unfold bin_op.
+    destruct op; try exact Logic.I; destruct v1; try exact Logic.I; destruct v2; try exact Logic.I;
+      rg_tac; try (apply new_arr_g; auto with good); try (apply array_repeat_g; exact Hw).
+  Qed.
+
+  Lemma push_range_g : forall a b w, wg w -> rg vgood (push_range a b w).
+  Proof.
+    intros a b w Hw; unfold push_range. destruct a; try exact Logic.I; destruct b; try exact Logic.I.
+    destruct (if z <=? z0 then _ else _) as [step len]. destruct (_ || _); [exact Logic.I|]. cbv zeta.
+    destruct (512 <? _); [exact Logic.I|].
+    destruct (range_loop _ _ _ _ _ _ _) eqn:Hr; [|intro X; discriminate X].
+    apply new_arr_g; [exact Hw|]. exact (range_loop_good _ _ _ _ _ _ _ _ lgood_nil Hr).
+  Qed.
+
+  Lemma native_call_g : forall name self args w, wg w -> lgood args -> String.eqb name "Computed.compute" = false ->
+    rg vgood (native_call call E name self args w).
+  Proof.
+    intros name self args w Hw Ha Hn. unfold native_call.
+    pose proof (native_sig_good name) as Hd. destruct (native_sig name) as [np defaults]. cbn [snd] in Hd. cbv zeta.
+    set (args' := (args ++ skipn (length args) defaults)%list).
+    assert (Ha' : lgood args') by (apply lgood_app; [exact Ha|apply lgood_skipn; exact Hd]). clearbody args'.
+    rewrite Hn.
+    set (sa := match self with SArr id => id | _ => 0%N end).
+    set (sd := match self with SDict id => id | _ => 0%N end).
+    set (l := get_arr sa (w_heap w)). assert (Hl : lgood l) by (apply get_arr_good; exact Hw). clearbody l.
+    set (mp := get_map sd (w_heap w)). assert (Hmp : mgood mp) by (apply get_map_good; exact Hw). clearbody mp.
+    assert (H0 : vgood (nth 0 args' VNull)) by (apply lgood_nth; [exact Ha'|exact Logic.I]).
+    assert (H1 : vgood (nth 1 args' VNull)) by (apply lgood_nth; [exact Ha'|exact Logic.I]).
+    repeat match goal with
+    | |- rg _ (if ?b then _ else _) => destruct b
+    end;
+    try exact Logic.I;
+    repeat match goal with
+    | |- rg _ (load_name _ _ _ _ _) => apply load_name_g; assumption
+    | |- rg _ (computed_execute _ _ _ _ _) => apply computed_execute_g; assumption
+    | |- rg _ (new_arr _ _) => apply new_arr_g; [assumption|eauto 7 with good]
+    | |- rg _ (rbind (str_of _ _ _ _) _) => eapply rg_rbind; [apply str_of_g; assumption|intros]
+    | |- rg _ (rbind (shuffle _ _) _) => eapply rg_rbind; [apply shuffle_g; assumption|intros]
+    | |- rg _ (rbind (roll1 _ _) _) => eapply rg_rbind; [apply roll1_g; assumption|intros]
+    | |- rg _ (rbind (new_arr _ _) _) => eapply rg_rbind; [apply new_arr_g; [assumption|eauto 7 with good]|intros]
+    | |- rg _ (ROk _ _) => split; [try exact Logic.I; eauto 7 with good | eauto 7 with good]
+    | |- rg _ (RPanic _) => let X := fresh in intro X; discriminate X
+    | |- rg _ (if ?b then _ else _) => destruct b
+    | |- rg _ (match ?x with _ => _ end) => destruct x
+    | |- _ => exact Logic.I
+    end;
+    match goal with |- vgood (if ?b then _ else _) => destruct b; exact Logic.I end.
+  Qed.
+
+  (* ---- frames *)
+  Lemma err_invalid_good : forall fr, frame_good fr -> frame_good (err_invalid fr).
+  Proof. intros fr H; unfold err_invalid. destruct (fr_err fr); exact H. Qed.
+  Lemma last_detail_good : forall fr, frame_good fr -> frame_good (last_detail fr).
+  Proof. intros fr H; unfold last_detail. destruct (fr_details fr); exact H. Qed.
+
+  Lemma pop_good : forall fr v fr1, frame_good fr -> pop fr = (v, fr1) -> vgood v /\ frame_good fr1.
+  Proof.
+    unfold pop; intros fr v fr1 H. destruct (fr_live fr) eqn:Hl.
+    - intros [= <- <-]. split; [exact Logic.I|].
+      unfold frame_good in *. cbn [fr_set_stack fr_live fr_dead fr_last]. split; [apply lgood_nil|split; [apply H|exact Logic.I]].
+    - intros [= <- <-]. unfold frame_good in *. rewrite Hl in H. destruct H as (H1 & H2 & H3). inversion H1; subst.
+      cbn [fr_set_stack fr_live fr_dead fr_last]. repeat split; auto. constructor; assumption.
+  Qed.
+  Lemma pop_n_aux_good : forall n fr acc l fr1, frame_good fr -> lgood acc -> pop_n_aux n fr acc = (l, fr1) ->
+    lgood l /\ frame_good fr1.
+  Proof.
+    induction n; intros fr acc l fr1 H Ha; cbn [pop_n_aux]; [intros [= <- <-]; auto|].
+    destruct (pop fr) as [v fr0] eqn:Hp. destruct (pop_good _ _ _ H Hp) as [Hv H0]. apply IHn; [exact H0|constructor; assumption].
+  Qed.
+  Lemma pop_n_good : forall n fr l fr1, frame_good fr -> pop_n n fr = (l, fr1) -> lgood l /\ frame_good fr1.
+  Proof.
+    unfold pop_n; intros n fr l fr1 H. destruct (n <=? 0); [intros [= <- <-]; split; [constructor|exact H]|].
+    destruct (pop_n_aux _ _ _) as [l1 fr0] eqn:Hp. destruct (pop_n_aux_good _ _ _ _ _ H lgood_nil Hp) as [Hl H0].
+    intros [= <- <-]. split; [exact Hl|]. unfold frame_good in *. cbn [fr_set_stack fr_live fr_dead fr_last].
+    destruct H0 as (A & B & C). repeat split; auto. destruct l1; [exact C|inversion Hl; assumption].
+  Qed.
+  Lemma push_good : forall v fr fr1, vgood v -> frame_good fr -> push v fr = Some fr1 -> frame_good fr1.
+  Proof.
+    unfold push; intros v fr fr1 Hv H. destruct (_ <=? _); [discriminate|]. intros [= <-].
+    unfold frame_good in *. cbn [fr_set_stack fr_live fr_dead fr_last]. destruct H as (A & B & C). repeat split; auto.
+    - constructor; assumption.
+    - destruct (fr_dead fr); [constructor|inversion B; assumption].
+  Qed.
+  Lemma lower_top_good : forall n live dead l d, lgood live -> lgood dead -> lower_top n live dead = (l, d) -> lgood l /\ lgood d.
+  Proof.
+    induction n; intros live dead l d H1 H2; cbn [lower_top]; [intros [= <- <-]; auto|].
+    destruct live; [intros [= <- <-]; auto|]. inversion H1; subst. apply IHn; [assumption|constructor; assumption].
+  Qed.
+  Lemma raise_top_good : forall n live dead l d, lgood live -> lgood dead -> raise_top n live dead = Some (l, d) -> lgood l /\ lgood d.
+  Proof.
+    induction n; intros live dead l d H1 H2; cbn [raise_top]; [intros [= <- <-]; auto|].
+    destruct dead; [discriminate|]. inversion H2; subst. apply IHn; [constructor; assumption|assumption].
+  Qed.
+  Lemma set_top_good : forall fr t fr1, frame_good fr -> set_top fr t = Some fr1 -> frame_good fr1.
+  Proof.
+    unfold set_top; intros fr t fr1 (A & B & C). destruct (t <=? fr_top fr).
+    - destruct (lower_top _ _ _) as [l d] eqn:Hl. destruct (lower_top_good _ _ _ _ _ A B Hl). intros [= <-].
+      unfold frame_good; cbn [fr_set_stack fr_live fr_dead fr_last]. auto.
+    - destruct (raise_top _ _ _) as [[l d]|] eqn:Hl; [|discriminate]. destruct (raise_top_good _ _ _ _ _ A B Hl). intros [= <-].
+      unfold frame_good; cbn [fr_set_stack fr_live fr_dead fr_last]. auto.
+  Qed.
+  Lemma nth_error_good : forall l n v, lgood l -> nth_error l n = Some v -> vgood v.
+  Proof. intros l n v H Hn. unfold lgood in H. rewrite Forall_forall in H. apply H. eapply nth_error_In; eauto. Qed.
+  Lemma read_slot_good : forall fr i v, frame_good fr -> read_slot fr i = Some v -> vgood v.
+  Proof.
+    unfold read_slot; intros fr i v (A & B & C). destruct (i <? 0); [discriminate|].
+    destruct (i <? fr_top fr); apply nth_error_good; assumption.
+  Qed.
+  Lemma last_good : forall fr v, frame_good fr -> fr_last fr = LVal v -> vgood v.
+  Proof. intros fr v (A & B & C) H. rewrite H in C. exact C. Qed.
+  Lemma live_hd_good : forall fr v l, frame_good fr -> fr_live fr = v :: l -> vgood v.
+  Proof. intros fr v l (A & B & C) H. rewrite H in A. inversion A; assumption. Qed.
+
+  (* ---- one instruction *)
+  Definition Q3 (r : sresult) : Prop :=
+    match r with SNext m | SStop m => G m | SPanic s => s <> nilself_msg | _ => True end.
+  Definition step_good (op : opcode) : Prop := forall o m, G m -> Q3 (step call rfuel E (I op o) m).
+
+  Lemma Q3_next : forall fr w, frame_good fr -> wg w -> Q3 (SNext (mk fr w)).
+  Proof. intros; split; assumption. Qed.
+  Lemma Q3_do_push : forall v fr w, vgood v -> frame_good fr -> wg w -> Q3 (do_push v fr w).
+  Proof.
+    intros v fr w Hv Hf Hw. unfold do_push. destruct (push v fr) as [fr1|] eqn:Hp; [|intro X; discriminate X].
+    split; [exact (push_good _ _ _ Hv Hf Hp)|exact Hw].
+  Qed.
+  Lemma Q3_dice_result : forall z fr w, frame_good fr -> wg w -> Q3 (dice_result z fr w).
+  Proof. intros; unfold dice_result. apply Q3_do_push; [exact Logic.I|apply last_detail_good; assumption|assumption]. Qed.
+  Lemma Q3_lift : forall A (P : A -> Prop) (r : R A) fr k, rg P r -> (forall a w, P a -> wg w -> Q3 (k a w)) -> Q3 (lift r fr k).
+  Proof.
+    intros A P r fr k H1 H2. destruct r; cbn in *; auto. unfold check_err. destruct (fr_err fr); cbn; [exact Logic.I|].
+    destruct H1; auto.
+  Qed.
+
+  Ltac fg_tac :=
+    first [ assumption
+          | apply last_detail_good; assumption
+          | apply err_invalid_good; assumption
+          | unfold frame_good in *; fr_unfold; repeat match goal with H : _ /\ _ |- _ => destruct H end; repeat split; assumption ].
+  Ltac vg_tac :=
+    try match goal with |- vgood (if ?b then _ else _) => destruct b end;
+    first [ assumption | exact Logic.I | eauto 5 with good ].
+  Ltac wg_tac :=
+    try match goal with |- wg (if ?b then _ else _) => destruct b end;
+    first [ assumption | eauto 7 with good ].
+
+  Ltac q3_fact :=
+    repeat match goal with
+    | Hm : frame_good ?fr, Hp : pop ?fr = (_, _) |- _ =>
+      let H1 := fresh "Hv" in let H2 := fresh "Hf" in destruct (pop_good _ _ _ Hm Hp) as [H1 H2]; clear Hp
+    | Hm : frame_good ?fr, Hp : pop_n _ ?fr = (_, _) |- _ =>
+      let H1 := fresh "Hl" in let H2 := fresh "Hf" in destruct (pop_n_good _ _ _ _ Hm Hp) as [H1 H2]; clear Hp
+    | Hm : frame_good ?fr, Hp : push (VInt _) ?fr = Some _ |- _ => pose proof (push_good _ _ _ (vgood_vint _) Hm Hp); clear Hp
+    | Hl : lgood ?l, Hp : dict_of ?l [] = Some _ |- _ => pose proof (dict_of_good _ _ _ Hl mgood_nil Hp); clear Hp
+    | Hm : frame_good ?fr, Hp : set_top ?fr _ = Some _ |- _ => pose proof (set_top_good _ _ _ Hm Hp); clear Hp
+    | Hm : frame_good ?fr, Hp : read_slot ?fr _ = Some _ |- _ => pose proof (read_slot_good _ _ _ Hm Hp); clear Hp
+    | Hm : frame_good ?fr, Hp : fr_last ?fr = LVal _ |- _ => pose proof (last_good _ _ Hm Hp); clear Hp
+    | Hm : frame_good ?fr, Hp : fr_live ?fr = _ :: _ |- _ => pose proof (live_hd_good _ _ _ Hm Hp); clear Hp
+    end.
+
+  Ltac q3_r0 :=
+    first [ apply func_invoke_g; assumption
+          | apply native_call_g; [assumption | assumption | match goal with H : vgood (VNative _ _) |- _ => exact H end]
+          | apply load_name_g; assumption
+          | apply attr_get_g; assumption | apply attr_set_g; assumption
+          | apply item_get_g; assumption | apply item_set_g; assumption | apply slice_get_g; assumption
+          | apply slice_set_g; assumption | apply bin_op_g; assumption | apply push_range_g; assumption ].
+  Ltac q3_r :=
+    first [ q3_r0 | match goal with H : _ = ?r |- rg _ ?r => rewrite <- H; q3_r0 end ].
+
+  Ltac q3_go :=
+    repeat (cbv beta iota zeta; first
+      [ exact Logic.I
+      | split; assumption
+      | match goal with |- Q3 (SPanic _) => let X := fresh in intro X; discriminate X end
+      | match goal with
+        | |- context [alloc_arr ?l ?h] =>
+          let H := fresh "Hh" in
+          assert (H : heap_good (snd (alloc_arr l h))) by (apply alloc_arr_good; [assumption | eauto 5 with good]);
+          revert H; destruct (alloc_arr l h); intro H; cbn [snd] in H
+        | |- context [alloc_map ?l ?h] =>
+          let H := fresh "Hh" in
+          assert (H : heap_good (snd (alloc_map l h))) by (apply alloc_map_good; [assumption | eauto 5 with good]);
+          revert H; destruct (alloc_map l h); intro H; cbn [snd] in H
+        end
+      | progress rewrite add_ops_spec
+      | match goal with |- Q3 (do_push _ _ _) => apply Q3_do_push; [vg_tac | fg_tac | wg_tac] end
+      | match goal with |- Q3 (dice_result _ _ _) => apply Q3_dice_result; [fg_tac | wg_tac] end
+      | match goal with |- Q3 (SNext (mk _ _)) => apply Q3_next; [fg_tac | wg_tac] end
+      | match goal with |- Q3 (lift _ _ _) => eapply Q3_lift; [q3_r | cbn [ovgood tt_ok]; intros] end
+      | match goal with
+        | |- Q3 (if ?b then _ else _) => destruct b eqn:?
+        | |- Q3 (match ?x with _ => _ end) => destruct x eqn:?; cbn [ovgood] in *; q3_fact
+        end ]).
+
+  Ltac q3_start :=
+    intros o m [Hf Hw]; unfold step; cbn [i_op i_arg];
+    unfold with_pop2, with_pop, with_pop_n, with_int, need_dice, arg_int, arg_str, upd_dice.
+
+  Ltac by_cases tac :=
+    let op := fresh "op" in let Hin := fresh "Hin" in
+    intros op Hin; cbn [In] in Hin;
+    repeat (destruct Hin as [<-|Hin]; [tac|]); contradiction.
+
+  Lemma step_good_plain : forall op,
+    In op [OpPushInt; OpPushFlt; OpPushStr; OpPushArr; OpPushDict; OpPushComputed; OpPushFunc; OpPushNull; OpPushThis;
+           OpPushRange; OpPushLast; OpPushDefExpr] -> step_good op.
+  Proof. by_cases ltac:(q3_start; q3_go). Qed.
+
+  Lemma step_good_more : forall op,
+    In op [OpAdd; OpSub; OpMul; OpDiv; OpMod; OpPow; OpNullCoalescing; OpLt; OpLe; OpEq; OpNe; OpGe; OpGt;
+           OpBitAnd; OpBitOr; OpAnd; OpOr; OpNeg; OpPos; OpInvoke; OpInvokeSelf;
+           OpItemGet; OpItemSet; OpAttrGet; OpAttrSet; OpSliceGet; OpSliceSet;
+           OpPop; OpPopN; OpNop; OpRet; OpHalt; OpPushGlobal; OpStoreGlobal; OpUnknown; OpDiceCustom;
+           OpStSet; OpStMod; OpStX0; OpStX1; OpJmp; OpJe; OpJne; OpJeDup; OpLd; OpLdD; OpLdRaw; OpStore; OpStoreLocal;
+           OpBlockPush; OpBlockPop; OpFstrPush; OpFstrPop; OpMarkDetail;
+           OpDiceInit; OpDiceSetTimes; OpDiceSetKeepLow; OpDiceSetKeepHigh; OpDiceSetDropLow; OpDiceSetDropHigh;
+           OpDiceSetMin; OpDiceSetMax; OpDice; OpDiceFate; OpCocPenalty; OpCocBonus;
+           OpDiceWod; OpWodInit; OpWodPool; OpWodPoints; OpWodThreshold; OpWodThresholdQ;
+           OpDiceDC; OpDcInit; OpDcPool; OpDcPoints]
+    -> step_good op.
+  Proof. by_cases ltac:(q3_start; q3_go). Qed.
+
+  Lemma step_good_OpLdFs : step_good OpLdFs.
+  Proof.
+    q3_start. destruct o; try (intro X; discriminate X).
+    destruct ((0 <? z) && (fr_top (m_fr m) - z <? 0)); [exact Logic.I|].
+    match goal with |- Q3 (?f ?l0 ?a0) => cut (forall l acc, Q3 (f l acc)); [intros Hx; apply Hx|] end.
+    induction l as [|v l IH]; intros acc; cbv beta iota.
+    - destruct (stack_size <=? fr_top (m_fr m) - z); [intro X; discriminate X|].
+      destruct (set_top (m_fr m) (fr_top (m_fr m) - z)) as [fr1|] eqn:Hs; [|exact Logic.I].
+      apply Q3_do_push; [exact Logic.I|exact (set_top_good _ _ _ Hf Hs)|exact Hw].
+    - destruct (to_string _ _ v); [apply IH|exact Logic.I].
+  Qed.
+
+  Theorem step_good_all : forall op, step_good op.
+  Proof.
+    intros op. destruct op;
+      first [ apply step_good_plain; cbn; tauto | apply step_good_more; cbn; tauto | apply step_good_OpLdFs ].
+  Qed.
+End Good.
+
+Lemma counted_good : forall E m, G m -> G (counted E m).
+Proof. intros E m [H1 H2]. split; [exact H1|]. unfold counted; cbn [m_w]. apply wg_set_self_ops; exact H2. Qed.
+
+Theorem exec_good : forall E fuel m, G m ->
+  match exec fuel E m with Fin m' => G m' | Panic s => s <> nilself_msg | _ => True end.
+Proof.
+  intros E. induction fuel as [|f IH]; intros m Hm; [exact Logic.I|]. cbn [exec].
+  destruct (zlen (fr_code (m_fr m)) <=? fr_pc (m_fr m)); [destruct (fr_err (m_fr m)); [exact Logic.I|exact Hm]|].
+  rewrite count_op_spec. destruct (snd (ops_add _ _ _)); [exact Logic.I|].
+  destruct (fr_err (m_fr m)); [exact Logic.I|]. destruct (fr_top (m_fr m) =? stack_size); [exact Logic.I|].
+  destruct (fr_pc (m_fr m) <? 0); [intro X; discriminate X|].
+  destruct (nth_error _ _) as [[op o]|]; [|intro X; discriminate X].
+  pose proof (step_good_all (exec f E) f E IH op o (counted E m) (counted_good E m Hm)) as HQ.
+  destruct (step (exec f E) f E {| i_op := op; i_arg := o |} (counted E m)) as [m2|m2|e m2|s| |s]; try exact Logic.I.
+  - apply IH. destruct HQ as [H1 H2]. split; [exact H1|exact H2].
+  - exact HQ.
+  - exact HQ.
+Qed.
+
+(* C01, the form that holds: from a state free of bare Computed.compute methods, well-formed code never
+   reaches a panic site, except the model-only push.range site (operands outside int64) *)
+Theorem C01_exec_no_panic_partial : forall E, ftab_wf (e_ftab E) = true ->
+  forall fuel m, machine_ok m -> G m -> match exec fuel E m with Panic s => s = range_msg | _ => True end.
+Proof.
+  intros E Hft fuel m Hm Hg. pose proof (C01_exec_no_panic_anystate E Hft fuel m Hm) as H1.
+  pose proof (exec_good E fuel m Hg) as H2. destruct (exec fuel E m); try exact Logic.I.
+  destruct H1 as [H1|H1]; [exact H1|contradiction].
+Qed.
+
+Definition state_good (st : vmstate) : Prop := heap_good (vs_heap st).
+
+Theorem C01_run_no_panic_partial : forall E c src,
+  code_wf c = true -> spans_wf (Some src) c = true -> ftab_wf (e_ftab E) = true ->
+  forall fuel st, state_good st -> match run fuel E c src st with OPanic s => s = range_msg | _ => True end.
+Proof.
+  intros E c src W1 W2 Hft fuel st Hst. unfold run.
+  match goal with |- context [exec fuel E ?m] =>
+    pose proof (C01_exec_no_panic_partial E Hft fuel m (new_frame_machine_ok _ _ _ W1 W2)) as H;
+    destruct (exec fuel E m) end; try exact Logic.I.
+  apply H. split; [apply new_frame_good|exact Hst].
+Qed.
+
+(* the invariant is kept across runs on one VM: the state after a run that returned a value is good again *)
+Theorem C01_run_keeps_state_good : forall E c src fuel st v st',
+  state_good st -> run fuel E c src st = Val v st' -> state_good st' /\ vgood v.
+Proof.
+  intros E c src fuel st v st' Hst. unfold run.
+  match goal with |- context [exec fuel E ?m] =>
+    pose proof (exec_good E fuel m) as H; destruct (exec fuel E m) as [m'| | | |] end; try discriminate.
+  intros [= <- <-]. destruct H as [Hf Hw]; [split; [apply new_frame_good|exact Hst]|].
+  split; [exact Hw|]. destruct Hf as [Hl _]. destruct (fr_live (m_fr m')); [exact Logic.I|inversion Hl; assumption].
+Qed.
+
+Example init_state_good : state_good st0.
+Proof. unfold state_good, st0, init_vmstate, heap_good. cbn. split; repeat constructor. Qed.
+
+Print Assumptions C01_exec_no_panic_partial.
+Print Assumptions C01_run_no_panic_partial.
+Print Assumptions C01_run_keeps_state_good.
